@@ -852,8 +852,12 @@ class Array(Tuple):
         self._value = np.empty(len(nodes), dtype=self._dtype)
 
     def update(self):
+        # create a new array instead of overwriting the previous value in place:
+        # frozen parents (and callers) may still hold a reference to it
+        _value = np.empty(len(self.nodes), dtype=self._dtype)
         for _i, _node in enumerate(self.nodes):
-            self._value[_i] = _node.value
+            _value[_i] = _node.value
+        self._value = _value
 
         self._stale = False
 
